@@ -40,6 +40,10 @@ func (this *StateValidatorListParam) Deserialization(source *common.ZeroCopySour
 	if eof {
 		return fmt.Errorf("source.NextVarUint, deserialize StateValidators length error")
 	}
+	// every string takes at least one byte (its length prefix)
+	if n > source.Len() {
+		return fmt.Errorf("deserialize StateValidators length %d exceeds remaining %d bytes", n, source.Len())
+	}
 	stateValidators := make([]string, 0, n)
 	for i := 0; uint64(i) < n; i++ {
 		ss, eof := source.NextString()
